@@ -11,9 +11,9 @@ git diff -- uxarray > "$OUT/patch.diff"
 cp seed/demo.py "$OUT/demo.py"; cp seed/meta.json "$OUT/meta.agent.json" 2>/dev/null
 export NUMBA_DISABLE_JIT=${NUMBA_DISABLE_JIT:-0}
 PYTHONPATH=$WT /venv/bin/python seed/demo.py > "$OUT/demo_with.log" 2>&1; W=$?
-git stash -q -- uxarray
+git checkout -q -- uxarray
 PYTHONPATH=$WT /venv/bin/python seed/demo.py > "$OUT/demo_without.log" 2>&1; WO=$?
-git stash pop -q
+git apply "$OUT/patch.diff"
 /venv/bin/python /verif/tools/run_baseline.py "$WT" > "$OUT/baseline_with.log" 2>&1; B=$?
 echo "seed=$ID demo_with_change_exit=$W demo_without_change_exit=$WO baseline_with_change_exit=$B"
 tail -1 "$OUT/baseline_with.log"
